@@ -7,12 +7,12 @@ W=$1; PKG=$2; RUN=$3; DEMO=$4
 cd "$W" || exit 2
 git apply -R --check _mutant/patch.diff 2>/dev/null || { echo "patch not applied in worktree; applying"; git apply _mutant/patch.diff || exit 2; }
 go build ./... || { echo BUILD-FAIL; exit 1; }
-go test -vet=off -count=1 "$PKG" -run "$RUN" > /tmp/vm_with.log 2>&1; A=$?
+go test -vet=off -count=1 "$PKG" -run "$RUN" > /tmp/vm_with_$$.log 2>&1; A=$?
 git apply -R _mutant/patch.diff || exit 2
-go test -vet=off -count=1 "$PKG" -run "$RUN" > /tmp/vm_without.log 2>&1; B=$?
+go test -vet=off -count=1 "$PKG" -run "$RUN" > /tmp/vm_without_$$.log 2>&1; B=$?
 git apply _mutant/patch.diff || exit 2
-mv "$DEMO" /tmp/vm_demo_aside.go
-go test -vet=off -count=1 "$PKG" > /tmp/vm_pkg.log 2>&1; C=$?
-mv /tmp/vm_demo_aside.go "$DEMO"
+mv "$DEMO" /tmp/vm_demo_aside_$$.go
+go test -vet=off -count=1 "$PKG" > /tmp/vm_pkg_$$.log 2>&1; C=$?
+mv /tmp/vm_demo_aside_$$.go "$DEMO"
 echo "demo with patch exit=$A (want !=0); without patch exit=$B (want 0); package tests with patch (demo aside) exit=$C (want 0)"
 [ $A -ne 0 ] && [ $B -eq 0 ] && [ $C -eq 0 ] && echo VERIFIED || echo NOT-VERIFIED
